@@ -563,9 +563,11 @@ def lexists (root : Node) (p : Str) : Bool :=
 
 def absP (pwd s : Str) : Str := if isAbs s then s else pwd ++ cSlash :: s
 
+/-- The leading-dot rule is applied per directory entry by `specStep` (`leadDot`), so the reference
+    matcher is asked without its own dot guard. -/
 def specMode (c : Cfg) : Mode :=
   { shortest := false, filenames := true, entire := true, nocase := c.nocase, noglobstar := true,
-    dotglob := c.dotglob, ext := c.extglob }
+    dotglob := true, ext := c.extglob }
 
 def compIsPattern (cfg : Cfg) (cs : List PC) : Bool :=
   hasMeta (compPat cs) || (cfg.extglob && hasExtGroup (compPat cs))
